@@ -615,7 +615,11 @@ package actions
 //@   requires a != nil && tx != nil && tables_wf()
 //@   requires [C04] policy_domain: forall s Id :: {subscriptions.exists(s)} subscriptions.exists(s) ==> effmax_row(s) <= 8640000000000000
 //@   ensures scope: [C04 C06 C02] exists now clock :: (forall d Id :: {deliveries.completed_at$null(d)} old(deliveries.exists(d)) ==>
-//@             delivery_unchanged(d) || (contains(a.params.IDs, d) && old(outstanding(d, now))))
+//@             delivery_unchanged(d) || (old(contains(a.params.IDs, d)) && old(outstanding(d, now))))
+//@   ensures nacked: [C04 C06] err == nil ==> exists now clock :: (forall d Id :: {deliveries.completed_at$null(d)} old(contains(a.params.IDs, d)) && old(outstanding(d, now)) ==>
+//@             ite(old(dl_exhausted(d)), delivery_retired(d), rescheduled(d, now)))
+//@   ensures partial: [C04 C06] exists now clock :: (forall d Id :: {deliveries.completed_at$null(d)} old(deliveries.exists(d)) ==>
+//@             delivery_unchanged(d) || (old(dl_exhausted(d)) && delivery_retired(d)) || (!old(dl_exhausted(d)) && rescheduled(d, now)))
 //@   ensures no_swallowed_failure: [C09] dbfailed() && !old(dbfailed()) ==> err != nil
 //@   modifies T:deliveries:*, CB:*, E:*ent.DeliveryCreate:, S:dbfailed, S:wake_on_commit, F:actions.NackDeliveries:actionBase.results, F:actions.nackDeliveriesResults:*, F:actions.actionTimer:*,
 //@            E:uuid.UUID:, E:*ent.Delivery:, MH:uuid.UUID:*ent.Subscription, MV:uuid.UUID:*ent.Subscription:, MV:uuid.UUID:*ent.Subscription:*, F:actions.deadLetterData:*
@@ -633,7 +637,12 @@ package actions
 //@     invariant a != nil && tx != nil && idx < len(deliveries)
 //@     invariant ids_kept: forall i int :: {a.params.IDs[i]} 0 <= i && i < len(a.params.IDs) ==> a.params.IDs[i] == old(a.params.IDs[i])
 //@     invariant subs_ok: forall k int :: {deliveries[k]} 0 <= k && k < len(deliveries) ==> subById[deliveries[k].SubscriptionID] != nil &&
-//@                 subById[deliveries[k].SubscriptionID].ID == deliveries[k].SubscriptionID
+//@                 subById[deliveries[k].SubscriptionID].ID == deliveries[k].SubscriptionID &&
+//@                 (exists j int :: 0 <= j && j < len(subs) && subById[deliveries[k].SubscriptionID] == subs[j])
+//@     invariant sel: forall k int :: {deliveries[k]} 0 <= k && k < len(deliveries) ==> deliveries[k] != nil && old(contains(a.params.IDs, cur(deliveries[k].ID))) && old(outstanding(cur(deliveries[k].ID), now))
+//@     invariant all: forall d Id :: {deliveries.completed_at$null(d)} old(contains(a.params.IDs, d)) && old(outstanding(d, now)) ==> (exists k int :: 0 <= k && k < len(deliveries) && deliveries[k].ID == d)
+//@     invariant done: forall k int :: {deliveries[k]} 0 <= k && k <= idx ==>
+//@                 ite(old(dl_exhausted(cur(deliveries[k].ID))), delivery_retired(deliveries[k].ID), rescheduled(deliveries[k].ID, now))
 //@     invariant pending: forall k int :: {deliveries[k]} idx < k && k < len(deliveries) ==> delivery_unchanged(deliveries[k].ID)
 //@     invariant others: forall d Id :: {deliveries.completed_at$null(d)} old(deliveries.exists(d)) ==> delivery_unchanged(d) || (exists k int :: 0 <= k && k <= idx && deliveries[k].ID == d)
 //@     invariant !dbfailed() || old(dbfailed())
